@@ -143,13 +143,7 @@ func (v *valuesVisitor) valueSatisfiesOperationListType(value ast.Value, operati
 		return v.valueSatisfiesOperationType(value, listItemType)
 	}
 
-	if v.operation.Types[listItemType].TypeKind == ast.TypeKindNonNull {
-		if len(v.operation.ListValues[value.Ref].Refs) == 0 {
-			// [] empty list is a valid input for [item!] lists
-			return true
-		}
-		listItemType = v.operation.Types[listItemType].OfType
-	}
+	// as below: the items are held to the item type as it is declared
 
 	valid := true
 
@@ -240,13 +234,8 @@ func (v *valuesVisitor) valueSatisfiesListType(value ast.Value, definitionTypeRe
 		return v.valueSatisfiesInputValueDefinitionType(value, listItemType)
 	}
 
-	if v.definition.Types[listItemType].TypeKind == ast.TypeKindNonNull {
-		if len(v.operation.ListValues[value.Ref].Refs) == 0 {
-			// [] empty list is a valid input for [item!] lists
-			return true
-		}
-		listItemType = v.definition.Types[listItemType].OfType
-	}
+	// the items are held to the item type as it is declared: null, or a nullable variable,
+	// is not an item of an [item!] list ([], the empty list, is)
 
 	valid := true
 
@@ -273,8 +262,7 @@ func (v *valuesVisitor) valueSatisfiesTypeDefinitionNode(value ast.Value, defini
 
 func (v *valuesVisitor) valueSatisfiesEnum(value ast.Value, definitionTypeRef int, node ast.Node) bool {
 	if value.Kind == ast.ValueKindVariable {
-		expectedTypeName := node.NameBytes(v.definition)
-		return v.variableValueHasMatchingTypeName(value, definitionTypeRef, expectedTypeName)
+		return v.variableValueSatisfiesDefinitionType(value, definitionTypeRef)
 	}
 
 	if value.Kind == ast.ValueKindString && v.allowStringLiteralsForEnums {
@@ -313,7 +301,7 @@ func (v *valuesVisitor) valueSatisfiesScalar(value ast.Value, definitionTypeRef 
 	scalarName := v.definition.ScalarTypeDefinitionNameBytes(scalar)
 
 	if value.Kind == ast.ValueKindVariable {
-		return v.variableValueHasMatchingTypeName(value, definitionTypeRef, scalarName)
+		return v.variableValueSatisfiesDefinitionType(value, definitionTypeRef)
 	}
 
 	switch {
@@ -421,8 +409,7 @@ func (v *valuesVisitor) valueSatisfiesScalarString(value ast.Value, definitionTy
 
 func (v *valuesVisitor) valueSatisfiesInputObjectTypeDefinition(value ast.Value, definitionTypeRef int, inputObjectTypeDefinition int) bool {
 	if value.Kind == ast.ValueKindVariable {
-		expectedTypeName := v.definition.InputObjectTypeDefinitionNameBytes(inputObjectTypeDefinition)
-		return v.variableValueHasMatchingTypeName(value, definitionTypeRef, expectedTypeName)
+		return v.variableValueSatisfiesDefinitionType(value, definitionTypeRef)
 	}
 
 	if value.Kind != ast.ValueKindObject {
@@ -582,25 +569,6 @@ func (v *valuesVisitor) objectValueSatisfiesInputValueDefinition(objectValue ast
 	// argument is not present on object value, if arg is optional it's still ok, otherwise not satisfied
 	if !v.definition.InputValueDefinitionArgumentIsOptional(inputValueDefinition) {
 		v.handleMissingRequiredFieldOfInputObjectError(objectValue, name, inputObjectDefinition, inputValueDefinition)
-		return false
-	}
-
-	return true
-}
-
-func (v *valuesVisitor) variableValueHasMatchingTypeName(value ast.Value, definitionTypeRef int, expectedTypeName []byte) bool {
-	variableDefinitionRef, _, actualTypeName, exists := v.operationVariableType(value.Ref)
-	if !exists {
-		v.handleUndefinedVarError(value)
-		return false
-	}
-
-	if v.operation.VariableDefinitionHasDefaultValue(variableDefinitionRef) {
-		return v.valueSatisfiesInputValueDefinitionType(v.operation.VariableDefinitions[variableDefinitionRef].DefaultValue.Value, definitionTypeRef)
-	}
-
-	if !bytes.Equal(actualTypeName, expectedTypeName) {
-		v.handleVariableHasIncompatibleTypeError(value, definitionTypeRef)
 		return false
 	}
 
